@@ -57,6 +57,7 @@ type SpecEnv struct {
 	block   *ssa.BasicBlock // context for local names (loop invariants)
 	callee  bool
 	inOld   bool
+	qdepth  int
 }
 
 func (fr *Frame) specEnv(st *State, b *ssa.BasicBlock) *SpecEnv {
@@ -102,7 +103,7 @@ func (env *SpecEnv) bindResults(fn *ssa.Function, res Val) {
 // lets: "let x = e" clauses; those mentioning results are only evaluated at exit.
 func (env *SpecEnv) evalLets(c *Contract, atExit bool) {
 	for _, cl := range c.byKind("let") {
-		if len(cl.Params) > 0 {
+		if cl.Macro {
 			if env.macros == nil {
 				env.macros = map[string]*Clause{}
 			}
@@ -163,6 +164,15 @@ func fromVal(v Val) SVal {
 
 func (v SVal) val() Val { return Val{T: v.T, C: v.C, Pl: v.Pl} }
 
+// loaded: a value read from the heap by a contract satisfies its type's
+// invariant (heap well-typedness); only asserted for ground terms.
+func (env *SpecEnv) loaded(v Val) SVal {
+	if env.qdepth == 0 {
+		env.vc().assume(env.vc().wf(v, env.state()))
+	}
+	return fromVal(v)
+}
+
 func (env *SpecEnv) state() *State {
 	if env.inOld {
 		return env.old
@@ -194,6 +204,9 @@ func (env *SpecEnv) ident(name string) SVal {
 	}
 	if strings.HasPrefix(name, "ghost_") {
 		g := "#" + name[6:]
+		if g == "#verr" {
+			return SVal{T: types.Universe.Lookup("error").Type(), C: []Term{vc.get(env.state(), "#verr#typ"), vc.get(env.state(), "#verr#val")}}
+		}
 		srt, ok := ghostSorts[g]
 		if !ok {
 			specFail("unknown ghost variable %s", g)
@@ -420,7 +433,7 @@ func (env *SpecEnv) expr(e ast.Expr) SVal {
 	case *ast.StarExpr:
 		v := env.expr(x.X)
 		pl := vc.placeOf(v.val())
-		return fromVal(vc.load(pl, env.state()))
+		return env.loaded(vc.load(pl, env.state()))
 	case *ast.BinaryExpr:
 		return env.binary(x)
 	case *ast.SelectorExpr:
@@ -557,7 +570,7 @@ func (env *SpecEnv) selector(x *ast.SelectorExpr) SVal {
 			v := vc.ptrVal(pl)
 			return SVal{T: v.T, C: v.C, Pl: v.Pl}
 		}
-		return fromVal(vc.load(pl, env.state()))
+		return env.loaded(vc.load(pl, env.state()))
 	}
 	if stt, isStruct := bv.T.Underlying().(*types.Struct); isStruct {
 		for i := 0; i < stt.NumFields(); i++ {
@@ -586,7 +599,7 @@ func (env *SpecEnv) index(x *ast.IndexExpr) SVal {
 	switch u := bv.T.Underlying().(type) {
 	case *types.Slice:
 		pl := &Place{Root: u.Elem(), Addr: add(bv.C[0], idx), Cur: u.Elem()}
-		return fromVal(vc.load(pl, env.state()))
+		return env.loaded(vc.load(pl, env.state()))
 	case *types.Basic:
 		if isString(bv.T) {
 			vc.regFam("E$uint8", "Int")
@@ -913,7 +926,9 @@ func (env *SpecEnv) callExpr(x *ast.CallExpr) SVal {
 		bv := fmt.Sprintf("|%s!%d|", id.Name, vc.nfresh)
 		saved, had := env.bound[id.Name]
 		env.bound[id.Name] = sInt(bv)
+		env.qdepth++
 		body := env.expr(x.Args[3]).t()
+		env.qdepth--
 		if had {
 			env.bound[id.Name] = saved
 		} else {
@@ -921,6 +936,9 @@ func (env *SpecEnv) callExpr(x *ast.CallExpr) SVal {
 		}
 		rng := and(sx("<=", lo, bv), sx("<", bv, hi))
 		if name == "forall" {
+			if pat := firstSelectWith(body, bv); pat != "" {
+				return sBool(fmt.Sprintf("(forall ((%s Int)) (! %s :pattern (%s)))", bv, implies(rng, body), pat))
+			}
 			return sBool(fmt.Sprintf("(forall ((%s Int)) %s)", bv, implies(rng, body)))
 		}
 		return sBool(fmt.Sprintf("(exists ((%s Int)) %s)", bv, and(rng, body)))
@@ -972,7 +990,13 @@ func (env *SpecEnv) callExpr(x *ast.CallExpr) SVal {
 		}
 		return sBool(eq(v.C[0], itoa(int64(vc.eng.typeID(t)))))
 	}
-	if mc, ok := env.macros[name]; ok {
+	mc, ok := env.macros[name]
+	if !ok {
+		if dm := vc.eng.contracts.defines[vc.eng.pkgPathOf(env.fn)]; dm != nil {
+			mc, ok = dm[name]
+		}
+	}
+	if ok {
 		if len(x.Args) != len(mc.Params) {
 			specFail("macro %s expects %d arguments", name, len(mc.Params))
 		}
@@ -1156,10 +1180,16 @@ func (env *SpecEnv) assignItems(cl *Clause) []assignItem {
 
 func (env *SpecEnv) havocAssigns(cl *Clause, st *State) {
 	vc := env.vc()
+	var gs []string
+	for _, it := range env.assignItems(cl) {
+		if it.ghost {
+			gs = append(gs, it.fam)
+		}
+	}
+	vc.havocGhostSet(st, gs)
 	for _, it := range env.assignItems(cl) {
 		switch {
 		case it.ghost:
-			vc.havocGhost(st, it.fam)
 		case it.addr != "":
 			f := vc.fresh("hv", it.sort)
 			vc.set(st, it.fam, store(vc.get(st, it.fam), it.addr, f))
@@ -1222,4 +1252,41 @@ func (fr *Frame) checkAssigns(out *State, reach Term) {
 		cond := fmt.Sprintf("(forall ((r Int)) (=> %s (= (select %s r) (select %s r))))", and(outside...), after, before)
 		vc.oblige("assigns", "frame:"+fam, reach, cond, fr.clauseProps(cl0), cl0.Aux, vc.pos(fr.fn.Pos()))
 	}
+}
+
+// firstSelectWith returns the left-most (outermost) select term of t that
+// mentions the bound variable bv: the trigger for a contract quantifier.
+func firstSelectWith(t, bv string) string {
+	for i := 0; i+8 <= len(t); i++ {
+		if !strings.HasPrefix(t[i:], "(select ") {
+			continue
+		}
+		depth := 0
+		j := i
+		inBar := false
+		for ; j < len(t); j++ {
+			if t[j] == '|' {
+				inBar = !inBar
+			}
+			if inBar {
+				continue
+			}
+			if t[j] == '(' {
+				depth++
+			} else if t[j] == ')' {
+				depth--
+				if depth == 0 {
+					break
+				}
+			}
+		}
+		if j >= len(t) {
+			return ""
+		}
+		sub := t[i : j+1]
+		if strings.Contains(sub, bv) {
+			return sub
+		}
+	}
+	return ""
 }
